@@ -63,7 +63,15 @@ func c15Config(rt *rapid.T, url string) map[string]any {
 		map[string]any{"indexed": false, "name": "memo", "type": "string", "column": "memo", "filter_op": "!contains", "filter_arg": []any{"spam"}},
 		map[string]any{"indexed": false, "name": "t", "type": "tuple", "components": []any{nested, map[string]any{"name": "amt", "type": "uint256", "column": "amt"}}},
 	}
+	odd := rapid.IntRange(0, 3).Draw(rt, "oddcomponents") == 0
+	if odd {
+		// components under an input that is not declared as a tuple: dig builds its
+		// decoder and its filter list from the components whatever the declared type says
+		inputs = append(inputs, map[string]any{"indexed": false, "name": "odd", "type": "address", "components": []any{
+			map[string]any{"name": "oddinner", "type": "address", "column": "odd_a", "filter_op": "contains", "filter_ref": map[string]any{"integration": "refig", "column": "addr", "table": "reft"}}}})
+	}
 	table := map[string]any{"name": "maint", "columns": []any{
+		map[string]any{"name": "odd_a", "type": "bytea"},
 		map[string]any{"name": "f", "type": "bytea"}, map[string]any{"name": "memo", "type": "text"}, map[string]any{"name": "inner_a", "type": "bytea"},
 		map[string]any{"name": "amt", "type": "numeric"}, map[string]any{"name": "log_addr", "type": "bytea"}, map[string]any{"name": "tx_to", "type": "bytea"}, map[string]any{"name": "block_time", "type": "numeric"}}}
 	if rapid.Bool().Draw(rt, "uniq") {
@@ -214,6 +222,19 @@ func c15Lifecycle(conf config.Root, node *sim.Node) (accepted bool, verr error, 
 		collect()
 		return true, nil, sqlTexts, unrec, "migrate: " + err.Error()
 	}
+	if msg := c15RunTasks(conf.Integrations, conf.Sources, pool, node); msg != "" {
+		collect()
+		return true, nil, sqlTexts, unrec, msg
+	}
+	collect()
+	return true, nil, sqlTexts, unrec, ""
+}
+
+// c15RunTasks builds the tasks exactly as shovel's loadTasks does (one per enabled
+// integration and source reference) and runs them over the chain, including a reorg
+// so that the deletion statements are issued too.
+func c15RunTasks(igs []config.Integration, srcs []config.Source, pool *pgxpool.Pool, node *sim.Node) string {
+	conf := config.Root{Integrations: igs, Sources: srcs}
 	clients := map[string]*jrpc2.Client{}
 	var tasks []*shovel.Task
 	for _, ig := range conf.Integrations {
@@ -249,8 +270,7 @@ func c15Lifecycle(conf config.Root, node *sim.Node) (accepted bool, verr error, 
 				task, terr = shovel.NewTask(shovel.WithContext(ctx), shovel.WithPG(pool), shovel.WithRange(sr.Start, sr.Stop), shovel.WithConcurrency(sc.Concurrency, sc.BatchSize),
 					shovel.WithSrcName(sc.Name), shovel.WithChainID(sc.ChainID), shovel.WithSource(clients[sc.Name]), shovel.WithIntegration(ig))
 			}); p != nil {
-				collect()
-				return true, nil, sqlTexts, unrec, fmt.Sprintf("NewTask panicked: %v", p)
+				return fmt.Sprintf("NewTask panicked: %v", p)
 			}
 			if terr == nil {
 				tasks = append(tasks, task)
@@ -272,8 +292,7 @@ func c15Lifecycle(conf config.Root, node *sim.Node) (accepted bool, verr error, 
 	for i := 0; i < 4; i++ {
 		step()
 	}
-	collect()
-	return true, nil, sqlTexts, unrec, ""
+	return ""
 }
 
 func c15Scan(sqlTexts, unrec []string) string {
@@ -433,6 +452,87 @@ func TestC15_Dashboard(t *testing.T) {
 			rt.Fatalf("VERIF-VIOLATION property=C15 dashboard: %s", v)
 		}
 		_ = http.StatusOK
+	})
+}
+
+// TestC15_DashboardRun: what the dashboard stored is what the manager later runs
+// without any further validation. One string position is made hostile, the
+// integration is submitted to /save-integration; if it was stored, the stored
+// integrations are loaded back (config.Root.AllIntegrations, as loadTasks does),
+// turned into tasks and run over a chain with matching logs. No planted string may
+// appear in any SQL text.
+func TestC15_DashboardRun(t *testing.T) {
+	ev := evid.For("C15", "DashboardRun")
+	pg, ns := env()
+	rapid.Check(t, func(rt *rapid.T) {
+		node := sim.NewNode(c15Chain())
+		url := ns.Attach(node, "")
+		defer ns.Detach(url)
+		base := c15Config(rt, url)
+		igs := base["integrations"].([]any)
+		hostile := c15Hostile[rapid.IntRange(0, len(c15Hostile)-1).Draw(rt, "hostile")]
+		name := fmt.Sprintf("dashrun%d", dbSeq.Add(1))
+		db := pg.NewDB(name)
+		db.KeepSQL = true
+		db.ApplyShovelSchema()
+		defer pg.DropDB(name)
+		pool, err := pgxpool.New(context.Background(), pg.URL(name))
+		if err != nil {
+			rt.Fatalf("VERIF-INCONCLUSIVE pool: %v", err)
+		}
+		defer pool.Close()
+		conf := config.Root{}
+		conf.Dashboard.DisableAuthn = true
+		srcJSON, _ := json.Marshal(base["eth_sources"])
+		json.Unmarshal(srcJSON, &conf.Sources)
+		// the referenced integration is stored unchanged, the main one with one hostile position
+		main := deepCopy(igs[1].(map[string]any))
+		ps := stringPositions(main)
+		pi := rapid.IntRange(0, len(ps)-1).Draw(rt, "position")
+		p := ps[pi]
+		p.set(hostile)
+		listed := c15Listed(".integrations[1]" + p.path)
+		stored := 0
+		for _, tree := range []map[string]any{deepCopy(igs[0].(map[string]any)), main} {
+			srcs := tree["sources"]
+			tree["sources"] = []any{} // (no background tasks from the handler's own restart)
+			body, _ := json.Marshal(tree)
+			before := len(db.Rows("shovel.integrations"))
+			r := httptest.NewRequest("POST", "/save-integration", bytes.NewReader(body))
+			w := httptest.NewRecorder()
+			h := web.New(shovel.NewManager(context.Background(), pool, conf), &conf, pool)
+			if pn := catch(func() { h.SaveIntegration(w, r) }); pn != nil {
+				rt.Fatalf("VERIF-VIOLATION property=C15 /save-integration panicked: %v", pn)
+			}
+			if len(db.Rows("shovel.integrations")) > before {
+				stored++
+			}
+			tree["sources"] = srcs
+		}
+		ran := false
+		if stored == 2 {
+			if listed {
+				rt.Fatalf("VERIF-VIOLATION property=C15 the dashboard stored an integration with %q at %s, a position that is spliced into SQL text", hostile, p.path)
+			}
+			all, err := conf.AllIntegrations(context.Background(), pool)
+			if err != nil {
+				rt.Fatalf("VERIF-INCONCLUSIVE loading the stored integrations: %v", err)
+			}
+			for i := range all {
+				all[i].Sources = []config.Source{{Name: "src1", Start: 1}}
+			}
+			// the operator created the tables beforehand (the dashboard does not migrate)
+			config.Migrate(context.Background(), pool, config.Root{Integrations: all})
+			c15RunTasks(all, conf.Sources, pool, node)
+			ran = true
+		}
+		if v := c15Scan(db.SQLTexts(), db.Unrecognised()); v != "" {
+			rt.Fatalf("VERIF-VIOLATION property=C15 dashboard, %q at %s (stored=%v): %s", hostile, p.path, stored == 2, v)
+		}
+		ev.Case(ran, "dashboard-run "+p.path+"="+hostile, fmt.Sprintf("storedAndRun=%v", ran), fmt.Sprintf("listed=%v", listed))
+		if ran && ev.WantSample(4) {
+			ev.Sample(4, map[string]any{"position": p.path, "value": hostile, "requests": node.Counts()})
+		}
 	})
 }
 
